@@ -180,6 +180,15 @@ def decide(prop, tier, seed, args, t0):
                     o = cand
                     reproduced = True
                     break
+        if o.get("kind") == "assert" and not reproduced:
+            res_native = None
+            if o["jobkind"] == "harness" and o.get("model") is not None:
+                res_native = native.run_native(o["module"], o["harness"], o["case"], o["model"])
+            if not (res_native and res_native.get("status") == "error" and "AssertionError" in str(res_native.get("error", ""))):
+                undecided.append((name, f"an assert statement of the code ({o.get('loc', '')}) could not be proved in the symbolic model and no input that trips it "
+                                        "was found (an abstract counter-model is not a failing input)"))
+                continue
+            reproduced = True
         path = os.path.join(VERIF, "replay", f"{prop}-{_san(name)}.py")
         solver_output = f"z3: sat (counter-model) for obligation {name} on path {o.get('path', '')}; model={json.dumps(o.get('model'))[:1500]}"
         if o["jobkind"] == "harness":
@@ -189,7 +198,7 @@ def decide(prop, tier, seed, args, t0):
         violations.append((name, path, reproduced, o))
 
     # ---- baseline: obligations that used to be generated and discharged must still be there
-    names_now = {o["name"] for o in all_obs if o["kind"] != "safety"}
+    names_now = {o["name"] for o in all_obs if o["kind"] not in ("safety", "assert")}
     for b in bounded_out:
         names_now |= set(b.get("obligations", {}).keys()) if isinstance(b.get("obligations"), dict) else set()
     missing = sorted(set(baseline.get("names", [])) - names_now) if not (args.only or args.update_baseline) else []
